@@ -340,6 +340,32 @@ func checkValue(c *core.Ctx, su *setup, t *target, v *tlref.Value, stale func(f 
 			return fmt.Errorf("%s: tl.Unmarshal from a reader that returns short reads gives another value (%v)\n  %v\nwant\n  %s", t.name, err, back, v)
 		}
 	}
+	// the decoded value owns its bytes: a caller that decodes from a reusable buffer (bytes.Buffer, a scratch
+	// slice behind a reader) and then refills that buffer for the next object still holds the first object
+	for _, kind := range []string{"bytes.Buffer", "bytes.Reader over a scratch slice"} {
+		p := reflect.New(t.goType)
+		scratch := append(make([]byte, 0, len(want)+64), want...)
+		var rd io.Reader
+		var refill func()
+		if kind == "bytes.Buffer" {
+			b := bytes.NewBuffer(scratch)
+			rd, refill = b, func() { b.Reset(); b.Write(bytes.Repeat([]byte{0xa5}, len(want)+32)) }
+		} else {
+			rd, refill = bytes.NewReader(scratch), func() {
+				for i := range scratch {
+					scratch[i] = 0x5a
+				}
+			}
+		}
+		if err := tl.Unmarshal(rd, p.Interface()); err != nil {
+			return fmt.Errorf("%s: tl.Unmarshal of the reference bytes from a %s: %v\nvalue %s", t.name, kind, err, v)
+		}
+		refill()
+		back, err := tlbind.FromGo(s, t.typeExpr(), p.Elem())
+		if err != nil || !tlref.Equal(back, v) {
+			return fmt.Errorf("%s: the value decoded from a %s changed when the buffer was refilled for the next object (%v)\n  %v\nwant\n  %s", t.name, kind, err, back, v)
+		}
+	}
 	// every proper prefix of the layout is an incomplete value: decoding reads the same fields in the same order
 	// and must run out of bytes (all cuts for short layouts, otherwise the last 16 and a spread of others)
 	if len(want) > 0 {
